@@ -111,7 +111,7 @@ def riskyIn (ge : GEnv) (f : Func) : Bool :=
       | .val (.glob n) => (match lookupG ge n with | some t' => !Types.equal t' (.int 1) | none => false)
       | _ => false
     -- calls: a return type written as a function type (the signature of a variadic callee) and variadic callees are outside the fragment
-    let badCall := (i.row == 74 || i.row == 75) &&
+    let badCall := callRows.contains i.row &&
       ((i.args.any fun a => match a with | .ty (.func _ _ _) => true | _ => false) ||
        (match calleeOf i with
         | some (.loc x) => (match lookup e x with | some (.ptr (.func _ _ true) _) => true | _ => false)
